@@ -205,6 +205,22 @@ func checkC18(c *Ctx, r *Report) {
 						gen = call
 					case "DrawGrammar":
 						draw = call
+					default:
+						// a helper method that prints the look-ahead sets of its own receiver
+						if ref := c.FuncOf(fn); ref != nil && ref.Decl.Recv != nil && len(ref.Decl.Recv.List) == 1 && len(ref.Decl.Recv.List[0].Names) == 1 && ref.Decl.Body != nil {
+							hinfo := ref.Pkg.TypesInfo
+							hrecv := hinfo.Defs[ref.Decl.Recv.List[0].Names[0]]
+							ast.Inspect(ref.Decl.Body, func(m ast.Node) bool {
+								if hc, isC := m.(*ast.CallExpr); isC {
+									if hf := callee(hinfo, hc); hf != nil && hf.Name() == "ShowLookAheadSet" {
+										if se, isS := unparen(hc.Fun).(*ast.SelectorExpr); isS && identObj(hinfo, se.X) == hrecv && hrecv != nil {
+											show = call
+										}
+									}
+								}
+								return true
+							})
+						}
 					}
 				}
 			}
